@@ -213,6 +213,16 @@ def _modify_corpus():
                         "copies": [{"file": 0, "node": "n1", "has": "Y", "wants": wants}, {"file": 0, "node": "n2", "has": "Y", "wants": "Y"}, {"file": 1, "node": "n1", "has": "Y", "wants": "Y"}],
                         "reqs": [], "rules": [], "unregistered": [], "ireqs": []}
                 out.append((spec, [("iter", "h1"), ("cli", "file modify", ["acq1/f0.dat", opt]), ("iter", "h1"), ("iter", "h2"), ("iter", "h1")]))
+    # a pending transfer whose source copy the daemon has recorded corrupt (over bytes that are indeed wrong)
+    for local in (True, False):
+        for disk in ("truncated", "corrupt"):
+            spec = {"groups": [{"name": "g1"}, {"name": "g2"}],
+                    "nodes": [{"name": "n1", "group": "g1", "stype": "A", "host": "h1", "active": True, "username": "u", "address": "addr"},
+                              {"name": "n2", "group": "g2", "stype": "A", "host": "h1" if local else "h2", "active": True, "username": "u", "address": "addr"}],
+                    "acqs": ["acq1"], "files": [{"acq": "acq1", "name": "data.dat", "size": 150}],
+                    "copies": [{"file": 0, "node": "n1", "has": "X", "wants": "Y", "disk": disk}],
+                    "reqs": [{"file": 0, "from": "n1", "to": "g2", "state": "pending"}], "rules": [], "unregistered": [], "ireqs": []}
+            out.append((spec, [("iter", "h1"), ("iter", "h2"), ("iter", "h1"), ("iter", "h2")]))
     # an import request for a path whose copy is already known --- corrupt, suspect, released or not --- must not make it healthy unchecked
     for has, wants in (("X", "M"), ("X", "N"), ("X", "Y"), ("M", "N"), ("N", "N")):
         for disk in ("truncated", "corrupt"):
